@@ -465,8 +465,9 @@ class Session:
             elif act == "Helper":
                 return self.helper(args["h"], extra), extra
             elif act == "FetchEnter":
-                self.cm = fetch_active_workspace(self.ws, mode=args["m"])
-                self.cm.__enter__()  # pylint: disable=unnecessary-dunder-call
+                cm = fetch_active_workspace(self.ws, mode=args["m"])
+                cm.__enter__()  # pylint: disable=unnecessary-dunder-call
+                self.cm = cm
             elif act == "FetchExit":
                 cm, self.cm = self.cm, None
                 cm.__exit__(None, None, None)
@@ -475,6 +476,12 @@ class Session:
         except MachineryError:
             raise
         except Exception as exc:  # pylint: disable=broad-except
+            if act in ("Open", "FetchEnter"):
+                # loading failed half-way (only specified for files a writable session has modified): no handle is kept
+                if self.ws is not None:
+                    rf._release(self.ws)  # pylint: disable=protected-access
+                import gc
+                gc.collect()
             return f"refused:{type(exc).__name__}", extra
         return "ok", extra
 
